@@ -7,20 +7,23 @@ from vlib import Check, VERIF
 META = {
     "engine": "E1+E2+E3+E4",
     "text": "Coq theorems over an interleaving model of GarbageCollector<R> (retire = Epoch::tick + two-step queue push, "
-            "stop = marker push + join, collector thread = while loop / try_pop_n in two ring chunks / slot-by-slot "
-            "low_water_mark scan / reclaim prefix / usleep) on top of a model of Epoch accessors (two-step lock, nested "
-            "lock counts) and a ticket-level FIFO of the bounded queue, for every client program, every thread count, "
-            "every capacity 2^k and every schedule: a reclaimer is called at most once (calls follow ticket order); never "
-            "while a region that was open at its retire() tick is still open; a pusher is blocked exactly while its "
-            "ticket is a full capacity ahead of the pop index and nothing popped is lost (called, pending in the "
-            "collector, or discarded - discarded only behind a stop marker or by the exit of the collector loop).  "
-            "'all called before stop() returns' is proved for the machine whose loop keeps going while tasks are "
-            "pending (the proposed repair) and REFUTED for the loop condition regenerated from the current source "
-            "(finding F2: stop() with a region open) together with 'a retire() racing with stop() is dropped'.  The loop "
-            "conditions, the epoch comparison, the marker test, the batch size and Epoch's lock/unlock/tick/scan "
-            "expressions are regenerated from garbage_collector.h / epoch.h / bounded_queue.hpp on every run.  Tie: the "
-            "real GarbageCollector with its real Epoch, real ConcurrentBoundedQueue and its own std::thread runs under "
-            "the deterministic scheduler (virtual usleep back-off) and every outcome (per-op results, order of reclaimer "
+            "stop = marker push + join, restartable collector thread = while loop / try_pop_n in two ring chunks / "
+            "slot-by-slot low_water_mark scan / reclaim prefix / usleep) on top of a model of Epoch accessors (two-step "
+            "lock, nested lock counts) and a ticket-level FIFO of the bounded queue, for every client program, every "
+            "thread count, every capacity 2^k, every batch boundary and every schedule, and for every loop condition of "
+            "keep_reclaim: a reclaimer is called at most once and calls follow ticket order (c10_at_most_once); never "
+            "while a region that was open at its retire() tick is still open (c10_never_early); a pusher is blocked "
+            "exactly while its ticket is a full capacity ahead of the pop index, stays enabled once enabled, and every "
+            "popped task is called, pending or explicitly discarded (c10_retire_blocks_iff_queue_full, "
+            "c10_queue_never_over_capacity, c10_blocked_retire_resumes, c10_no_task_lost).  'All called before stop() "
+            "returns' is proved for every loop condition of the form running || index < size (the proposed repair, "
+            "c10_all_before_stop_returns_if_loop_waits / _fixed_loop) and REFUTED for the condition regenerated from the "
+            "current source (finding F2: stop() with a region open, c10_all_before_stop_refuted), as is 'a retire() "
+            "racing with stop() is kept' (c10_retire_racing_stop_refuted).  The loop conditions, the epoch comparison, "
+            "the marker test, the batch size, the index arithmetic and Epoch's lock/unlock/tick/scan expressions are "
+            "regenerated from garbage_collector.h / epoch.h / bounded_queue.hpp on every run.  Tie: the real "
+            "GarbageCollector with its real Epoch, real ConcurrentBoundedQueue and its own std::thread runs under the "
+            "deterministic scheduler (virtual usleep back-off) and every outcome (per-op results, order of reclaimer "
             "calls with the set of open slots at each call, call count at stop() return) on small programs must be one "
             "the exhaustively explored extracted model admits; monitors check the property text on every run.",
     "note": "Trusted: Coq kernel; translator; extraction (ExtrOcamlBasic) + OCaml explorer; macro shim and dsched "
